@@ -32,6 +32,7 @@ type summary struct {
 	RejectedFam map[string]int `json:"families_rejected"`
 	RejectedEx  []string       `json:"rejected_examples"`
 	Samples     []interface{}  `json:"samples"`
+	Suppressed  int            `json:"mismatching_traces_not_kept"`
 }
 
 type runner struct {
@@ -40,10 +41,12 @@ type runner struct {
 	tid    int
 	sample int
 	seenNT map[string]bool
+	perKey map[string]int
+	capKey int
 }
 
 func newRunner(out, mode string, sample int) *runner {
-	return &runner{w: tr.NewWriter(out), sample: sample, seenNT: map[string]bool{},
+	return &runner{w: tr.NewWriter(out), sample: sample, seenNT: map[string]bool{}, perKey: map[string]int{}, capKey: 25,
 		sum: &summary{Suite: "printer", Mode: mode, Rules: map[string]int{}, Families: map[string]int{}, Atoms: map[string]int{}, RejectedFam: map[string]int{}}}
 }
 
@@ -70,7 +73,18 @@ func (r *runner) one(src []byte, opt int, meta tr.E) Result {
 			r.sum.Samples = append(r.sum.Samples, map[string]interface{}{"src": string(src), "opt": opt, "printed": res.Text1})
 		}
 	}
-	r.w.End(res.Mismatch || (r.sample > 0 && r.tid%r.sample == 0))
+	keep := r.sample > 0 && r.tid%r.sample == 0
+	if res.Mismatch {
+		// all executions that differ in a new way are kept; of those that differ in the same way (same rule, same
+		// construct, same Options value) the first capKey
+		r.perKey[res.Key]++
+		if r.perKey[res.Key] <= r.capKey {
+			keep = true
+		} else {
+			r.sum.Suppressed++
+		}
+	}
+	r.w.End(keep)
 	return res
 }
 
